@@ -100,6 +100,7 @@ def scenario(exe, shim, root, seed, stats):
         lg = os.path.join(vlib.scratch(), 'mon_%d_%d.log' % (seed, stats['runs']))
         before = tree_state(a)
         snaplog = os.path.join(a.root, 'log%d.txt' % (a.nlog + 1))
+        par_before = {pf: open(pf, 'rb').read() for l in range(a.nparity) for pf in a.parity_files(l) if os.path.exists(pf)} if cmd == 'fix' else {}
         r = a.cmd(cmd, *args, env={'LD_PRELOAD': shim, 'VERIF_LOG': lg})
         after = tree_state(a)
         stats['runs'] += 1
@@ -151,6 +152,20 @@ def scenario(exe, shim, root, seed, stats):
                     if is_file_change and base not in reported and not any(x.startswith(base) for x in reported):
                         # directories created as ancestors and links/dirs are reported with other tags
                         problem = 'fix wrote the data file %s which it does not report as fixed/recovered/unrecoverable' % pth.replace(a.root, '$A'); break
+        # 3. fix and the parity: it writes parity blocks it repaired, it never shortens a parity file, and with a block
+        #    range it leaves every parity block outside the range as it was
+        if not problem and cmd == 'fix':
+            rng_s = rng_b = None
+            if '-S' in args: rng_s = int(args[args.index('-S') + 1])
+            if '-B' in args: rng_b = int(args[args.index('-B') + 1])
+            for pf, b0 in par_before.items():
+                b1 = open(pf, 'rb').read() if os.path.exists(pf) else b''
+                if len(b1) < len(b0):
+                    problem = 'fix %s shortens the parity file %s from %d to %d bytes' % (' '.join(args), pf.replace(a.root, '$A'), len(b0), len(b1)); break
+                if rng_b is not None:
+                    lo = (rng_s or 0) * a.block; hi = lo + rng_b * a.block
+                    if b1[:lo] != b0[:lo] or b1[hi:len(b0)] != b0[hi:]:
+                        problem = 'fix %s changes parity blocks of %s outside the requested range of stripes' % (' '.join(args), pf.replace(a.root, '$A')); break
         if problem:
             out.append(('%s; %s' % (problem, desc), '%s\n%s\noutput tail:\n%s\ntags:\n%s\nhistory:\n%s' % (problem, desc, r.out[-600:], '\n'.join(t for t in r.tags if t.split(':')[0] in ('status', 'fixed', 'unrecoverable', 'recovered', 'error', 'entry', 'summary'))[:3000], '\n'.join(s.history))))
             break
